@@ -288,7 +288,7 @@ func (hs *serverHandshake) parseClientHandshake(filter *replayfilter.ReplayFilte
 		macRx := resp[pos+markLength : pos+markLength+macLength]
 		if hmac.Equal(macCmp, macRx) {
 			// Ensure that this handshake has not been seen previously.
-			if filter.TestAndSet(time.Now(), macRx) {
+			if filter.TestAndSetNow(macRx) {
 				// The client either happened to generate exactly the same
 				// session key and padding, or someone is replaying a previous
 				// handshake.  In either case, fuck them.
